@@ -123,6 +123,18 @@ def rule_extrapolate(ctx: Ctx) -> RuleResult:
             if adds and all(cfg.on_all_paths(cfg.node_of(g).id, cfg.node_of(ol).id, [cfg.node_of(a).id]) or cfg.dominates(
                     cfg.node_of(a).id, cfg.node_of(g).id) for a in adds):
                 sees_generated = True
+        # being owned skips this level only: the walk goes on with the next shorter prefix
+        stops = []
+        for n_ in cfg.nodes:
+            if isinstance(n_.ast, (ast.Break, ast.Return, ast.Raise)) and cfg.dominates(tn.id, n_.id) \
+                    and not cfg.path_exists(tn.id, n_.id, skip_edges=[(tn.id, "true")]):
+                stops.append(n_)
+        if stops:
+            res.violation([EX, f"skip test ({what})", "stops the walk"],
+                          f"extrapolate_templates: when a {what} is already owned the walk up the template stops "
+                          f"(`{type(stops[0].ast).__name__.lower()}`) instead of going on with the next shorter prefix: unowned prefixes above "
+                          f"an owned level get no type", f.relpath, stops[0].lineno)
+            continue
         if sees_explicit and sees_generated:
             res.ok(f"R-OWN skip if the {what} is taken", f"`{norm(hit)[:70]}` ranges over configured and already generated entries")
         else:
